@@ -318,6 +318,7 @@ def place_ghost_at_anchors(sf, ed, spec, lo, hi, used):
         if key[0] == 'before':
             # start of the statement that contains the anchor: scan back to the previous `;` / `{` / `}` at the same depth
             k = h - 1
+            arm = False
             while k >= lo:
                 tx = st[k].text
                 if tx in (')', ']'):
@@ -325,8 +326,26 @@ def place_ghost_at_anchors(sf, ed, spec, lo, hi, used):
                     continue
                 if tx in (';', '{', '}'):
                     break
+                if tx == '=>':
+                    arm = True      # the anchor sits in an expression arm `pat => expr,` of a match
+                    break
                 k -= 1
-            ed.ins(st[k + 1].start, '\n' + spec.sections[key] + '\n')
+            if arm:
+                # wrap the arm's expression into a block that starts with the ghost text: `pat => { ghost expr },`
+                # (the value of the arm is unchanged)
+                e = h
+                while e < hi:
+                    tx = st[e].text
+                    if tx in OPEN:
+                        e = m[e] + 1
+                        continue
+                    if tx in (',', '}'):
+                        break
+                    e += 1
+                ed.ins(st[k + 1].start, '{\n' + spec.sections[key] + '\n')
+                ed.ins(st[e - 1].end, ' }')
+            else:
+                ed.ins(st[k + 1].start, '\n' + spec.sections[key] + '\n')
         else:
             k = h
             while True:
